@@ -166,10 +166,18 @@ impl Prop for C03 {
                 return out;
             }
         };
-        let kept = match c.max_vocab {
-            None => c.table.entries.len(),
-            Some(l) => l.saturating_sub(nspecial).saturating_sub(256).min(c.table.entries.len()),
+        // how many merges a max_vocab_size keeps is read from the tokenizer (the statement only
+        // requires a limit): a prefix of the table, all of it without a limit, within the limit
+        let vs = tok.vocab_size();
+        let Some(kept) = vs.checked_sub(256 + nspecial) else {
+            out.fail(format!("vocab_size {vs} smaller than 256 + {nspecial} special tokens"));
+            return out;
         };
+        ensure!(out, kept <= c.table.entries.len(), "{kept} merges in the vocabulary, the table has {}", c.table.entries.len());
+        match c.max_vocab {
+            None => ensure!(out, kept == c.table.entries.len(), "no max_vocab_size but only {kept} of {} merges are used", c.table.entries.len()),
+            Some(l) => ensure!(out, kept == 0 || vs <= l, "vocab_size {vs} exceeds max_vocab_size {l}"),
+        }
         out.label_if(kept < c.table.entries.len(), "truncated");
         let map = c.table.truncated(kept).map();
         let got = match tok.tokenize(&c.text, true) {
